@@ -2,6 +2,7 @@ import Driver.Angular
 import Ecpint.Model.ShellPair
 import Ecpint.Gen.QTerms
 import Ecpint.Gen.GammaTable
+import Ecpint.Model.Generator
 /-! layer `pair` (multi-line; producer harness/corr_pair.cpp):
   engine <maxLB> <maxLU> <deriv>
   ecp <cx> <cy> <cz> <nprim> (<n> <l> <a> <d>)*           n as stored (already reduced by two); sorted by l
@@ -9,6 +10,8 @@ import Ecpint.Gen.GammaTable
   shift <sa> <sb>
   ext D|E (<arg> <val>)*                                  logged calls of Dawson / erf
   sw <tailCut> <closedForms> <radialScreen> <pairScreen> <prescreen> <finest>      → one `V <nA> <nB> <v>*` per sw line
+  gencheck <LA> <LB> <lam>   (after `engine`)  → `G <LA> <LB> <lam> triples=.. nbase=.. terms=.. nterms=.. pruned=<hex>`:
+                             the generator model run on the engine's angular tables against Gen/QClasses + Gen/QTerms
   screens                                                 → `S <v>*` the per-l estimates -/
 namespace Driver.Pair
 open Ecpint Ecpint.ShellPair Ecpint.Contraction Driver.Radial
@@ -159,6 +162,31 @@ def feed (cache : Cache) (q : Req) (ts : List String) : Cache × Req :=
       let r := computeShellPair E sw (fun i z => Gen.fastPow i z) (fun x n => Float.pow x (Float.ofNat n)) Gen.MAX_POW eulerF sinh1F classesOf U sA sB q.shiftA q.shiftB
       (cache, { q with out := q.out ++ [s!"V {r.1} {r.2.1} " ++ " ".intercalate (r.2.2.toList.map hexOfFloat)] })
     | _, _, _, _, _ => fail
+  | ["gencheck", la, lb, lam] =>
+    match cache.eng, la.toNat?, lb.toNat?, lam.toNat? with
+    | some E, some LA, some LB, some lam =>
+      let prefac : Float := 16.0 * piF * piF
+      let cd := Generator.classData E.omega prefac lam LA LB
+      let line := match Gen.qclasses.find? fun c => c.LA = LA ∧ c.LB = LB ∧ c.lam = lam with
+        | none => s!"G {LA} {LB} {lam} class-missing"
+        | some c =>
+          let trOk := cd.triplesA == c.triplesA && cd.triplesB == c.triplesB
+          let nbOk := cd.nbase == c.nbase
+          let (termsMsg, n) := match Gen.unrolledTerms LA LB lam with
+            | none => (if c.unrolled then "BAD:class-says-unrolled-but-no-terms" else "none", 0)
+            | some ts =>
+              let kept := fun a b l1 l2 => Generator.genKept E.omega prefac lam a b l1 l2
+              let mine : List (UTerm Float) := unroll E.omega prefac kept lam LA LB
+              let same := fun (t : Gen.RawTerm) (u : UTerm Float) =>
+                t.na == u.na && t.nb == u.nb && t.mu == u.mu && t.ca == u.ca && t.cb == u.cb && t.rad == u.rad && t.sa == u.sa && t.sb == u.sb
+                  && (t.coef.toBits == u.coef.toBits || (t.coef == 0.0 && u.coef == 0.0))
+              if ts.length != mine.length then (s!"BAD:length-{ts.length}-vs-{mine.length}", ts.length)
+              else match (ts.zip mine).findIdx? fun (t, u) => !same t u with
+                | some i => (s!"BAD:line-{i}", ts.length)
+                | none => ("ok", ts.length)
+          s!"G {LA} {LB} {lam} triples={if trOk then "ok" else "BAD"} nbase={if nbOk then "ok" else s!"BAD:{cd.nbase}-vs-{c.nbase}"} terms={termsMsg} nterms={n} pruned={hexOfFloat cd.prunedMax} lost={hexOfFloat cd.lostMax}"
+      (cache, { q with out := q.out ++ [line] })
+    | _, _, _, _ => fail
   | ["screens"] =>
     match cache.eng, q.ecp, q.sA, q.sB with
     | some E, some U, some sA, some sB =>
